@@ -9,7 +9,7 @@
 From GL Require Import Base.Bytes Base.BytesProofs Base.Varint Base.Order Base.OrderProofs Base.Cursor Codec.BytesCmp Codec.IKey
   Codec.IKeyProofs Codec.Table Codec.TableCheck Codec.TableSizes Codec.Batch Lsm.Lsm Lsm.Compact Lsm.LsmProofs Lsm.CompactProofs
   Lsm.WfProofs Lsm.History Lsm.HistoryProofs Lsm.ReorgProofs Lsm.Pick Lsm.PickBase Lsm.WfLsm Lsm.ModelStep Lsm.C06Steps
-  Lsm.Builder Lsm.BuilderBase Lsm.BuilderCuts Lsm.BuilderStep Lsm.FinishProofs
+  Lsm.Builder Lsm.BuilderBase Lsm.BuilderCuts Lsm.BuilderStep Lsm.FinishProofs Lsm.StepProofs Lsm.OutputProofs
   Lsm.ReadPath Lsm.ReadPathKey Lsm.ReadPathMem Lsm.ReadPathTable Lsm.ReadPathProofs Lsm.BatchWriteProofs
   Lsm.WritePath Lsm.WritePathTable Lsm.WritePathMem Lsm.WritePathInstall.
 From GL Require Mem.MemDB.
@@ -374,5 +374,388 @@ Section Steps.
         rewrite El in El'. injection El' as <-.
         specialize (Il' g Hg). destruct Il' as [Q|Q]; [symmetry; exact Q|].
         exfalso. apply (Hfresh g Q). pose proof (f_equal t_num Eg) as En. cbn [abs_table t_num frozen_table] in En. exact En.
+  Qed.
+
+  (* ---------------- entries stored in table files, and writing them back ---------------- *)
+  Definition stored (e : entry) : Prop :=
+    exists kv, e = entry_of kv /\ key_okb p (fst kv) = true /\ item_kv (IGood e) = kv.
+
+  Lemma stored_of_kv kv : key_okb p (fst kv) = true -> stored (entry_of kv).
+  Proof.
+    intros Hk. exists kv. split; [reflexivity|]. split; [exact Hk|].
+    destruct (key_okb_dec p _ Hk) as (k & D & _). unfold item_kv.
+    rewrite (e_ikey_entry_of kv k D), (entry_of_dec kv k D). cbn [e_val].
+    destruct (ik_dec_some _ _ D) as (_ & _ & E). rewrite E. destruct kv; reflexivity.
+  Qed.
+
+  Lemma file_entries_stored f e : okb f = true -> In e (t_entries (atab f)) -> stored e.
+  Proof.
+    intros Hf He. destruct (okb_facts c p tp crc decompress fname ufc verify ri f Hf) as (bl & se & hs & F).
+    unfold abs_table in He. cbn [t_entries] in He. apply in_map_iff in He as (kv & <- & Hkv).
+    apply stored_of_kv. pose proof (tff_keys _ _ _ _ _ _ _ _ _ _ _ _ _ F) as Hk.
+    rewrite <- (tff_pairs _ _ _ _ _ _ _ _ _ _ _ _ _ F) in Hk. unfold keys_ok in Hk. rewrite Forall_forall in Hk. apply Hk. exact Hkv.
+  Qed.
+
+  Lemma level_entries_stored st i e : wfb st -> In e (LE (lv (av st) i)) -> stored e.
+  Proof.
+    intros W He. apply LE_in in He as (t & Ht & He). destruct (in_level_file st i t Ht) as (f & Hf & <-).
+    apply (file_entries_stored f e); [|exact He].
+    pose proof (wb_tables _ _ _ _ _ _ _ _ _ _ _ W) as Hts. unfold files_of in Hf. apply in_concat in Hf as (l & Hl & Hf).
+    rewrite Forall_forall in Hts. specialize (Hts l Hl). rewrite Forall_forall in Hts. apply Hts. exact Hf.
+  Qed.
+
+  Lemma chunk_kvs_entries es : Forall stored es ->
+    map entry_of (chunk_kvs es) = es /\ Forall (fun kv => key_okb p (fst kv) = true) (chunk_kvs es).
+  Proof.
+    induction es as [|e es IH]; intros H; [split; [reflexivity|constructor]|].
+    inversion H as [|? ? Hs H']; subst. destruct Hs as (kv & E1 & Hk & E2). destruct (IH H') as [J1 J2].
+    unfold chunk_kvs in *. cbn [map]. rewrite E2. split; [rewrite <- E1, J1; reflexivity|constructor; assumption].
+  Qed.
+
+  (* entries strictly ordered by the internal-key order = their encoded keys strictly ordered *)
+  Lemma ssorted_sorted_from k0 kv0 kvs : ik_dec (fst kv0) = Some k0 -> keys_ok p kvs ->
+    ssorted c (map entry_of (kv0 :: kvs)) -> Cursor.sorted_from icr (fst kv0) kvs.
+  Proof.
+    revert k0 kv0. induction kvs as [|[k1 v1] kvs IH]; intros k0 kv0 D0 Hk Hs; [exact I|].
+    inversion Hk as [|? ? Hk1 Hk']; subst. cbn [fst] in Hk1. destruct (key_okb_dec p _ Hk1) as (x1 & D1 & _).
+    cbn [map ssorted] in Hs. destruct Hs as [F1 Hs]. cbn [Cursor.sorted_from]. split.
+    - inversion F1 as [|? ? E1 _]; subst. unfold ecmp in E1.
+      rewrite (e_ikey_entry_of kv0 k0 D0), (e_ikey_entry_of (k1, v1) x1 D1) in E1.
+      rewrite (ibc_dec c _ _ _ _ D0 D1). exact E1.
+    - apply (IH x1 (k1, v1) D1 Hk'). cbn [map ssorted]. exact Hs.
+  Qed.
+
+  Lemma ssorted_sorted kvs : keys_ok p kvs -> ssorted c (map entry_of kvs) -> Cursor.sorted icr kvs.
+  Proof.
+    destruct kvs as [|[k0 v0] kvs]; [intros; exact I|]. intros Hk Hs.
+    inversion Hk as [|? ? Hk0 Hk']; subst. cbn [fst] in Hk0. destruct (key_okb_dec p _ Hk0) as (x0 & D0 & _).
+    cbn [Cursor.sorted]. apply (ssorted_sorted_from x0 (k0, v0) kvs D0 Hk' Hs).
+  Qed.
+
+  (* tableCompactionBuilder's output tables, written by the model writer *)
+  Definition chunk_ok (ch : list entry) : Prop :=
+    ch <> [] /\ Forall stored ch /\ ssorted c ch /\ write_sizes_ok c p tp crc compress o (chunk_kvs ch) = true.
+
+  Definition filter_safe : Prop :=
+    wo_filter o = None \/
+    forall n kvs f, write_table c p tp crc compress o n kvs = Some f -> filter_part c tp crc decompress fname ufc verify f = true.
+
+  Lemma write_chunk n ch : chunk_ok ch -> filter_safe ->
+    exists f, write_table c p tp crc compress o n (chunk_kvs ch) = Some f /\ okb f = true /\
+              atab f = {| t_num := n; t_entries := ch |} /\ tf_num f = n.
+  Proof.
+    intros (Hne & Hst & Hso & Hsz) Hfl. destruct (chunk_kvs_entries ch Hst) as [Eent Hk].
+    assert (Hkne : chunk_kvs ch <> []) by (destruct ch; [congruence|discriminate]).
+    pose proof Hsz as Hsz0. unfold write_sizes_ok in Hsz0. apply andb_prop in Hsz0 as [_ Hb].
+    destruct (table_bytes c p tp crc compress o (chunk_kvs ch)) as [data|] eqn:Eb; [|discriminate].
+    pose proof (write_table_some n _ data Hkne Eb) as Ewt.
+    assert (Hsorted : Cursor.sorted icr (chunk_kvs ch)) by (apply ssorted_sorted; [exact Hk|rewrite Eent; exact Hso]).
+    destruct (writer_output_ok c ok p pok tp tp_ok crc crc_bound compress decompress codec_ok compress_ne fname ufc verify o ri_pos
+                n (chunk_kvs ch) data Hsorted Hkne Hk Eb Hsz) as (Hokf & Hpf & _).
+    { destruct Hfl as [Hn|Hf]; [left; exact Hn|right; apply (Hf n (chunk_kvs ch)); exact Ewt]. }
+    eexists. split; [exact Ewt|]. split; [exact Hokf|]. split; [|reflexivity].
+    unfold abs_table. rewrite Hpf, Eent. reflexivity.
+  Qed.
+
+  Lemma write_outputs_ok : forall nums chunks, length nums = length chunks -> Forall chunk_ok chunks -> filter_safe ->
+    exists outs, write_outputs c p tp crc compress o nums chunks = Some outs /\
+      Forall (fun f => okb f = true) outs /\ map atab outs = mk_outputs nums chunks /\ map tf_num outs = nums.
+  Proof.
+    induction nums as [|n nums IH]; intros [|ch chunks] Hl Hc Hfl; cbn [length] in Hl; try lia.
+    - exists []. repeat split; constructor.
+    - inversion Hc as [|? ? Hch Hc']; subst.
+      destruct (write_chunk n ch Hch Hfl) as (f & Ef & Hok & Et & En).
+      destruct (IH chunks ltac:(lia) Hc' Hfl) as (outs & Eo & Ho & Mo & No).
+      exists (f :: outs). cbn [write_outputs]. rewrite Ef, Eo. split; [reflexivity|].
+      split; [constructor; assumption|]. split; [cbn [map mk_outputs]; rewrite Et, Mo; reflexivity|cbn [map]; rewrite En, No; reflexivity].
+  Qed.
+
+  (* ---------------- the record of a table compaction / trivial move: which entries the new version holds ---------------- *)
+  Lemma memN_filter n (g : N -> bool) l : memN n (filter g l) = true <-> memN n l = true /\ g n = true.
+  Proof.
+    unfold memN. rewrite !existsb_exists. split.
+    - intros (m & Hm & E). apply filter_In in Hm as [Hm Hg]. apply N.eqb_eq in E. subst m. split; [|exact Hg].
+      exists n. split; [exact Hm|apply N.eqb_refl].
+    - intros [(m & Hm & E) Hg]. apply N.eqb_eq in E. subst m. exists n. split; [apply filter_In; split; assumption|apply N.eqb_refl].
+  Qed.
+
+  Lemma memN_app n a b : memN n (a ++ b) = memN n a || memN n b.
+  Proof. unfold memN. apply existsb_app. Qed.
+
+  Section CE.
+    Variables (v : list (list table)) (lvl : nat) (cm : compaction) (outs : list table) (nv : list (list table)).
+    Hypothesis Wv : wf_lsm v.
+    Hypothesis Elvl : c_level cm = lvl.
+    Hypothesis I0 : incl (c_t0 cm) (lv v lvl).
+    Hypothesis I1 : incl (c_t1 cm) (lv v (S lvl)).
+    Local Notation inputs := (c_t0 cm ++ c_t1 cm).
+    Hypothesis Houts : forall x l t', In x outs -> In t' (lv v l) -> t_num t' = t_num x -> In t' inputs.
+    Hypothesis Efin : finish c true v (compaction_edit cm outs) = POk nv.
+    Local Notation ed := (compaction_edit cm outs).
+
+    Lemma ce_keep l t' : In t' (lv v l) ->
+      (memN (t_num t') (dels_at ed l (lv v l)) = false /\ memN (t_num t') (nums_of (adds_at ed l)) = false)
+      <-> is_input (nums_of inputs) t' = false.
+    Proof.
+      intros Ht'. change (is_input (nums_of inputs) t') with (memN (t_num t') (nums_of inputs)).
+      assert (Hbase : lv v l <> []) by (intros Q; rewrite Q in Ht'; destruct Ht').
+      assert (Edel : dels_at ed l (lv v l) =
+                     filter (fun n => negb (memN n (nums_of (adds_at ed l))))
+                            ((if Nat.eqb (c_level cm) l then nums_of (c_t0 cm) else []) ++
+                             (if Nat.eqb (S (c_level cm)) l then nums_of (c_t1 cm) else []))).
+      { unfold dels_at. rewrite (dels_raw_ce cm outs l). destruct (lv v l); [congruence|reflexivity]. }
+      rewrite Edel. split.
+      - intros [D A]. destruct (memN (t_num t') (nums_of inputs)) eqn:Q; [|reflexivity]. exfalso.
+        apply memN_nums in Q as (ti & Hti & En).
+        assert (Hraw : memN (t_num t') ((if Nat.eqb (c_level cm) l then nums_of (c_t0 cm) else []) ++
+                             (if Nat.eqb (S (c_level cm)) l then nums_of (c_t1 cm) else [])) = true).
+        { rewrite memN_app. apply in_app_or in Hti as [Hti|Hti].
+          - destruct (wl_nums c p v Wv lvl l ti t' (I0 _ Hti) Ht' En) as [<- _]. rewrite Elvl, Nat.eqb_refl.
+            apply Bool.orb_true_iff. left. apply memN_nums. exists ti. auto.
+          - destruct (wl_nums c p v Wv (S lvl) l ti t' (I1 _ Hti) Ht' En) as [<- _]. rewrite Elvl, Nat.eqb_refl.
+            apply Bool.orb_true_iff. right. apply memN_nums. exists ti. auto. }
+        assert (T : memN (t_num t') (filter (fun n => negb (memN n (nums_of (adds_at ed l))))
+                             ((if Nat.eqb (c_level cm) l then nums_of (c_t0 cm) else []) ++
+                              (if Nat.eqb (S (c_level cm)) l then nums_of (c_t1 cm) else []))) = true).
+        { apply memN_filter. split; [exact Hraw|]. rewrite A. reflexivity. }
+        congruence.
+      - intros Q. split.
+        + destruct (memN (t_num t') (filter _ _)) eqn:T; [|reflexivity]. exfalso.
+          apply memN_filter in T as [T _]. rewrite memN_app in T. apply Bool.orb_true_iff in T as [T|T].
+          * destruct (Nat.eqb (c_level cm) l); [|discriminate]. apply memN_nums in T as (ti & Hti & En).
+            assert (memN (t_num t') (nums_of inputs) = true) by (apply memN_nums; exists ti; split; [apply in_or_app; left; exact Hti|exact En]).
+            congruence.
+          * destruct (Nat.eqb (S (c_level cm)) l); [|discriminate]. apply memN_nums in T as (ti & Hti & En).
+            assert (memN (t_num t') (nums_of inputs) = true) by (apply memN_nums; exists ti; split; [apply in_or_app; right; exact Hti|exact En]).
+            congruence.
+        + destruct (memN (t_num t') (nums_of (adds_at ed l))) eqn:T; [|reflexivity]. exfalso.
+          apply memN_nums in T as (x & Hx & En). rewrite adds_at_ce in Hx.
+          destruct (Nat.eqb (S (c_level cm)) l); [|destruct Hx].
+          pose proof (Houts x l t' Hx Ht' (eq_sym En)) as Hin.
+          assert (memN (t_num t') (nums_of inputs) = true) by (apply memN_nums; exists t'; split; [exact Hin|reflexivity]).
+          congruence.
+    Qed.
+
+    Lemma ce_entries x :
+      In x (LE (concat nv)) <->
+      In x (LE outs) \/ In x (LE (filter (fun t => negb (is_input (nums_of inputs) t)) (concat v))).
+    Proof.
+      rewrite (LE_finish true v ed nv Efin x). split.
+      - intros (l & t & Hx & [(Ht & K)|Ht]).
+        + right. apply LE_in. exists t. split; [|exact Hx]. apply filter_In. split.
+          * apply in_concat. exists (lv v l). split; [|exact Ht]. unfold lv in *.
+            destruct (Nat.lt_ge_cases l (length v)) as [L|L]; [apply nth_In; exact L|]. rewrite nth_overflow in Ht by lia. destruct Ht.
+          * apply (ce_keep l t Ht) in K. rewrite K. reflexivity.
+        + left. rewrite adds_at_ce in Ht. destruct (Nat.eqb (S (c_level cm)) l); [|destruct Ht]. apply LE_in. exists t. auto.
+      - intros [Hx|Hx].
+        + apply LE_in in Hx as (t & Ht & Hx). exists (S lvl), t. split; [exact Hx|]. right. rewrite adds_at_ce, Elvl, Nat.eqb_refl. exact Ht.
+        + apply LE_in in Hx as (t & Ht & Hx). apply filter_In in Ht as [Ht K]. apply Bool.negb_true_iff in K.
+          destruct (in_concat_lv v t Ht) as (l & Hl). exists l, t. split; [exact Hx|]. left. split; [exact Hl|].
+          apply (ce_keep l t Hl). exact K.
+    Qed.
+  End CE.
+
+  Lemma uniq_in_incl l1 l2 : (forall x, In x l2 -> In x l1) -> uniq_in l1 -> uniq_in l2.
+  Proof. intros S U a b Ha Hb. apply U; apply S; assumption. Qed.
+
+  Definition others_of (st : bstate) (cm : compaction) : list entry :=
+    LE (filter (fun t => negb (is_input (nums_of (c_t0 cm ++ c_t1 cm)) t)) (concat (av st))).
+  Definition bufs_of (st : bstate) : list entry := st_mem (absS st) ++ st_frozen (absS st).
+
+  (* the stored tables = the inputs and the others *)
+  Lemma split_inputs st lvl cm : wf_lsm (av st) -> incl (c_t0 cm) (lv (av st) lvl) -> incl (c_t1 cm) (lv (av st) (S lvl)) ->
+    forall x, In x (LE (concat (av st))) <-> In x (LE (c_t0 cm ++ c_t1 cm)) \/ In x (others_of st cm).
+  Proof.
+    intros Wl I0 I1 x. unfold others_of. rewrite !LE_in. split.
+    - intros (t & Ht & Hx). destruct (is_input (nums_of (c_t0 cm ++ c_t1 cm)) t) eqn:Q.
+      + left. exists t. split; [|exact Hx]. change (memN (t_num t) (nums_of (c_t0 cm ++ c_t1 cm)) = true) in Q.
+        apply memN_nums in Q as (ti & Hti & En). destruct (in_concat_lv _ t Ht) as (l & Hl).
+        assert (Hlv : exists j, In ti (lv (av st) j)).
+        { apply in_app_or in Hti as [H|H]; [exists lvl; apply I0; exact H|exists (S lvl); apply I1; exact H]. }
+        destruct Hlv as (j & Hj). destruct (wl_nums c p _ Wl j l ti t Hj Hl En) as [_ <-]. exact Hti.
+      + right. exists t. split; [|exact Hx]. apply filter_In. split; [exact Ht|rewrite Q; reflexivity].
+    - intros [(t & Ht & Hx)|(t & Ht & Hx)].
+      + exists t. split; [|exact Hx]. apply in_app_or in Ht as [Ht|Ht].
+        * apply in_concat. exists (lv (av st) lvl). split; [|apply I0; exact Ht]. unfold lv.
+          destruct (Nat.lt_ge_cases lvl (length (av st))) as [L|L]; [apply nth_In; exact L|].
+          specialize (I0 t Ht). unfold lv in I0. rewrite nth_overflow in I0 by lia. destruct I0.
+        * apply in_concat. exists (lv (av st) (S lvl)). split; [|apply I1; exact Ht]. unfold lv.
+          destruct (Nat.lt_ge_cases (S lvl) (length (av st))) as [L|L]; [apply nth_In; exact L|].
+          specialize (I1 t Ht). unfold lv in I1. rewrite nth_overflow in I1 by lia. destruct I1.
+      + apply filter_In in Ht as [Ht _]. exists t. auto.
+  Qed.
+
+  Lemma all_entries_bufs st x : In x (all_entries (absS st)) <-> In x (bufs_of st) \/ In x (LE (concat (av st))).
+  Proof. rewrite all_entries_abs. unfold bufs_of. cbn [ReadPath.abs st_mem st_frozen]. rewrite !in_app_iff. tauto. Qed.
+
+  (* installing the record of a table compaction or of a trivial move *)
+  Lemma reorg_install st lvl cm newf outs nv :
+    bfull st -> c_level cm = lvl -> incl (c_t0 cm) (lv (av st) lvl) -> incl (c_t1 cm) (lv (av st) (S lvl)) ->
+    finish c true (av st) (compaction_edit cm outs) = POk nv -> wf_lsm nv ->
+    Forall (fun f => okb f = true) newf -> NoDup (map tf_num (newf ++ files_of st)) ->
+    (forall t, In t outs -> exists f, In f (newf ++ files_of st) /\ atab f = t) ->
+    (forall x l t', In x outs -> In t' (lv (av st) l) -> t_num t' = t_num x -> In t' (c_t0 cm ++ c_t1 cm)) ->
+    (forall x, In x (LE outs) -> In x (LE (c_t0 cm ++ c_t1 cm))) ->
+    exists st', inst true st newf (compaction_edit cm outs) (bs_mem st) (bs_frozen st) = Some st' /\ bfull st' /\
+      bs_mem st' = bs_mem st /\ bs_frozen st' = bs_frozen st /\ av st' = nv /\
+      (forall x, In x (all_entries (absS st')) <-> In x (bufs_of st) \/ In x (LE outs) \/ In x (others_of st cm)).
+  Proof.
+    intros [W Wl U] Elvl I0 I1 Ef Wnv Hnew Hnd Hpool Hnum Hent.
+    destruct (install_ok true st newf (compaction_edit cm outs) (bs_mem st) (bs_frozen st) nv W Wl Ef Hnew Hnd) as (st' & Ei & Em & Efz & Eav & Hall).
+    { intros l t Ht. rewrite adds_at_ce in Ht. destruct (Nat.eqb (S (c_level cm)) l); [|destruct Ht]. apply Hpool. exact Ht. }
+    exists st'. split; [exact Ei|].
+    assert (Ebufs : bufs_of st' = bufs_of st) by (unfold bufs_of; cbn [ReadPath.abs st_mem st_frozen]; rewrite Em, Efz; reflexivity).
+    assert (Hce : forall x, In x (LE (concat (av st'))) <-> In x (LE outs) \/ In x (others_of st cm)).
+    { intros x. rewrite Eav. apply (ce_entries (av st) lvl cm outs nv Wl Elvl I0 I1 Hnum Ef x). }
+    assert (Hall' : forall x, In x (all_entries (absS st')) <-> In x (bufs_of st) \/ In x (LE outs) \/ In x (others_of st cm)).
+    { intros x. rewrite all_entries_bufs, Ebufs, Hce. reflexivity. }
+    assert (Hsub : forall x, In x (LE (concat (av st'))) -> In x (LE (concat (av st)))).
+    { intros x Hx. apply Hce in Hx. apply (split_inputs st lvl cm Wl I0 I1). destruct Hx as [Hx|Hx]; [left; apply Hent; exact Hx|right; exact Hx]. }
+    destruct (wf_state_newer _ (wb_abs _ _ _ _ _ _ _ _ _ _ _ W)) as (N1 & N2 & N3).
+    assert (Hlvl : forall i x, In x (LE (lv (av st') i)) -> exists j, In x (LE (lv (av st) j))).
+    { intros i x Hx. apply in_LE_concat. apply Hsub. apply in_LE_concat. exists i. exact Hx. }
+    split; [constructor|].
+    - constructor.
+      + rewrite Em. exact (wb_mem _ _ _ _ _ _ _ _ _ _ _ W).
+      + rewrite Efz. exact (wb_frozen _ _ _ _ _ _ _ _ _ _ _ W).
+      + exact Hall.
+      + destruct (mem_entries_wf (bs_mem st) (wb_mem _ _ _ _ _ _ _ _ _ _ _ W)) as [S1 K1].
+        destruct (mem_entries_wf (bs_frozen st) (wb_frozen _ _ _ _ _ _ _ _ _ _ _ W)) as [S2 K2].
+        change (absS st') with {| st_mem := mem_entries mp (bs_mem st'); st_frozen := mem_entries mp (bs_frozen st'); st_aux := []; st_levels := av st' |}.
+        rewrite Em, Efz. apply wf_state_parts; try assumption.
+        * rewrite Eav. exact Wnv.
+        * intros i a b Ha Hb2. destruct (Hlvl i b Hb2) as (j & Hj). apply (N2 j a b Ha Hj).
+        * intros i a b Ha Hb2. destruct (Hlvl i b Hb2) as (j & Hj). apply (N3 j a b Ha Hj).
+    - rewrite Eav. exact Wnv.
+    - apply (uniq_in_incl (all_entries (absS st))); [|exact U]. intros x Hx. apply all_entries_bufs.
+      apply all_entries_bufs in Hx as [Hx|Hx]; [left; rewrite <- Ebufs; exact Hx|right; apply Hsub; exact Hx].
+    - split; [exact Em|]. split; [exact Efz|]. split; [exact Eav|exact Hall'].
+  Qed.
+
+  Lemma seed_tables_ok st lvl seed : wf_lsm (av st) -> seed_tables (av st) lvl seed <> [] ->
+    seed_ok (av st) lvl (seed_tables (av st) lvl seed).
+  Proof.
+    intros Wl Hne. split; [exact Hne|]. split.
+    - intros t Ht. unfold seed_tables in Ht. apply filter_In in Ht as [Ht _]. exact Ht.
+    - unfold seed_tables. apply NoDup_filter. apply (lv_nodup c p _ Wl).
+  Qed.
+
+  (* ---------------- tableCompaction: the trivial move ---------------- *)
+  Theorem move_step st lvl seed :
+    bfull st -> seed_tables (av st) lvl seed <> [] ->
+    exists cm, b_pick c tp crc decompress fname ufc verify o st lvl seed = POk cm /\
+      (trivial (fsz st) cm (wo_gpOverlaps o lvl) = true ->
+       exists st', b_trivial_move c tp crc decompress fname ufc verify o lvl seed st = Some st' /\ bfull st' /\
+         bs_mem st' = bs_mem st /\ bs_frozen st' = bs_frozen st /\
+         finish c true (av st) (move_edit cm) = POk (av st') /\
+         same_elems (all_entries (absS st)) (all_entries (absS st'))).
+  Proof.
+    intros B Hne. pose proof B as [W Wl U]. pose proof (seed_tables_ok st lvl seed Wl Hne) as S.
+    destruct (trivial_move_step c ok p (fsz st) (av st) lvl (wo_expandLimit o lvl) _ Wl S) as (cm & Ecm & Hmove).
+    destruct (inputs_closed c ok p (fsz st) (av st) lvl (wo_expandLimit o lvl) _ Wl S) as (cm' & Ecm' & Elvl & _ & I0 & I1 & _).
+    rewrite Ecm in Ecm'. injection Ecm' as <-.
+    exists cm. split; [exact Ecm|]. intros T.
+    destruct (Hmove _ T) as (nv & Ef & Wnv).
+    destruct (trivial_shape (fsz st) cm _ T) as (t & E0 & E1).
+    unfold b_trivial_move, b_pick. rewrite Ecm, T.
+    destruct (reorg_install st lvl cm [] (c_t0 cm) nv B Elvl I0 I1 Ef Wnv) as (st' & Ei & B' & Em & Efz & Eav & Hall).
+    - constructor.
+    - cbn [app]. apply files_nodup. exact Wl.
+    - intros t' Ht'. destruct (in_level_file st lvl t' (I0 _ Ht')) as (f & Hf & E). exists f. split; [exact Hf|exact E].
+    - intros x l t' Hx Ht' En. destruct (wl_nums c p _ Wl lvl l x t' (I0 _ Hx) Ht' (eq_sym En)) as [_ <-]. apply in_or_app. left. exact Hx.
+    - intros x Hx. rewrite LE_app. apply in_or_app. left. exact Hx.
+    - exists st'. split; [exact Ei|]. split; [exact B'|]. split; [exact Em|]. split; [exact Efz|]. split; [rewrite Eav; exact Ef|].
+      intros x. rewrite Hall, all_entries_bufs, (split_inputs st lvl cm Wl I0 I1 x). rewrite E1, app_nil_r. tauto.
+  Qed.
+
+  (* ---------------- tableCompaction: tableCompactionBuilder + commit ---------------- *)
+  Local Notation blen := (bytes_len c p tp crc compress o).
+
+  Theorem compact_step st lvl seed os nums minSeq :
+    bfull st -> seed_tables (av st) lvl seed <> [] -> minSeq < keyMaxSeq p ->
+    NoDup nums -> (forall n f, In n nums -> In f (files_of st) -> tf_num f <> n) ->
+    filter_safe ->
+    exists cm, b_pick c tp crc decompress fname ufc verify o st lvl seed = POk cm /\
+      forall s',
+        let deeper := skipn (lvl + 2) (av st) in
+        transact c p (fsz st) (c_gp cm) (wo_gpOverlaps o lvl) deeper minSeq (wo_strict o) (wo_tableSize o (S lvl)) blen os
+                 (map IGood (merge_inputs c (c_t0 cm ++ c_t1 cm))) (bst0 deeper) = (s', TDone) ->
+        length nums = length (fin s') ->
+        Forall (fun ch => write_sizes_ok c p tp crc compress o (chunk_kvs ch) = true) (fin s') ->
+        exists st', b_compact c p tp crc compress decompress fname ufc verify o lvl seed os nums minSeq st = Some st' /\ bfull st' /\
+          bs_mem st' = bs_mem st /\ bs_frozen st' = bs_frozen st /\
+          outputs_of c p cm minSeq deeper (fin s') /\
+          finish c true (av st) (compaction_edit cm (mk_outputs nums (fin s'))) = POk (av st') /\
+          (forall x, In x (all_entries (absS st')) -> In x (all_entries (absS st))) /\
+          (forall k s, minSeq <= s ->
+             History.res p (newest c k s (all_entries (absS st')) None) = History.res p (newest c k s (all_entries (absS st)) None)).
+  Proof.
+    intros B Hne Hms Hnd Hfresh Hfl. pose proof B as [W Wl U].
+    pose proof (seed_tables_ok st lvl seed Wl Hne) as Sd. pose proof Sd as (S1 & S2 & S3).
+    set (sd := seed_tables (av st) lvl seed) in *.
+    destruct (model_pick c ok p (fsz st) (av st) Wl lvl (wo_expandLimit o lvl) sd S1 S2 S3) as (cm & Ecm & Pk).
+    exists cm. split; [exact Ecm|]. intros s' deeper Htr Hlen Hsz.
+    pose proof (pk_level c _ _ _ cm Pk) as Elvl.
+    assert (I0 : incl (c_t0 cm) (lv (av st) lvl)) by (intros t Ht; apply (pk_t0 c _ _ _ cm Pk t Ht)).
+    assert (I1 : incl (c_t1 cm) (lv (av st) (S lvl))) by (intros t Ht; apply (pk_t1 c _ _ _ cm Pk t Ht)).
+    (* the builder's tables are outputs *)
+    destruct (builder_outputs_of c ok p pok (fsz st) (av st) lvl (wo_expandLimit o lvl) sd Wl Sd) as (cm' & Ecm' & Hb).
+    rewrite Ecm in Ecm'. injection Ecm' as <-.
+    destruct (Hb (c_gp cm) (wo_gpOverlaps o lvl) minSeq (wo_strict o) (wo_tableSize o (S lvl)) blen os s' Htr) as (_ & [Cuts Kept] & _ & _).
+    fold deeper in Cuts, Kept.
+    set (chunks := fin s') in *.
+    pose proof (kept_sorted c ok p pok (fsz st) (av st) Wl lvl sd cm Pk minSeq deeper chunks Kept) as Hks.
+    destruct (outputs_well_formed c ok chunks Cuts Hks) as [Hwfc _].
+    assert (HkI : forall x, In x (concat chunks) -> In x (LE (c_t0 cm ++ c_t1 cm))) by (intros x Hx; apply (kept_I c p cm minSeq deeper chunks Kept x Hx)).
+    assert (Hinp : forall x, In x (LE (c_t0 cm ++ c_t1 cm)) -> exists j, In x (LE (lv (av st) j))).
+    { intros x Hx. rewrite LE_app in Hx. apply in_app_or in Hx as [Hx|Hx]; apply LE_in in Hx as (t & Ht & Hx).
+      - exists lvl. apply LE_in. exists t. split; [apply I0; exact Ht|exact Hx].
+      - exists (S lvl). apply LE_in. exists t. split; [apply I1; exact Ht|exact Hx]. }
+    assert (Hchunks : Forall chunk_ok chunks).
+    { apply Forall_forall. intros ch Hch. rewrite Forall_forall in Hwfc, Hsz. destruct (Hwfc ch Hch) as [Hs Hn].
+      split; [exact Hn|]. split; [|split; [exact Hs|apply Hsz; exact Hch]].
+      apply Forall_forall. intros e He. destruct (Hinp e) as (j & Hj).
+      - apply HkI. apply in_concat. exists ch. split; assumption.
+      - apply (level_entries_stored st j e W Hj). }
+    destruct (write_outputs_ok nums chunks Hlen Hchunks Hfl) as (outs & Eo & Hoko & Mo & No).
+    (* the L1 compaction step *)
+    destruct (model_compaction_step c ok p pok (fsz st) (av st) Wl lvl sd S2 cm Pk minSeq deeper chunks nums Cuts Kept Hlen Hnd)
+      as (nv & Ef & Wnv).
+    { intros n i t Hn Ht. destruct (in_level_file st i t Ht) as (f & Hf & <-). apply (Hfresh n f Hn Hf). }
+    assert (Hnums : map t_num (mk_outputs nums chunks) = nums) by (apply mk_outputs_nums; exact Hlen).
+    assert (Eole : LE (mk_outputs nums chunks) = concat chunks) by (unfold LE, LsmProofs.level_entries; rewrite (mk_outputs_entries nums chunks Hlen); reflexivity).
+    destruct (reorg_install st lvl cm outs (mk_outputs nums chunks) nv B Elvl I0 I1 Ef Wnv Hoko) as (st' & Ei & B' & Em & Efz & Eav & Hall).
+    - rewrite map_app, No. apply nodup_app_iff. split; [exact Hnd|]. split; [apply files_nodup; exact Wl|].
+      intros n Hn Hc. apply in_map_iff in Hc as (f & En & Hf). apply (Hfresh n f Hn Hf En).
+    - intros t Ht. rewrite <- Mo in Ht. apply in_map_iff in Ht as (f & <- & Hf). exists f. split; [apply in_or_app; left; exact Hf|reflexivity].
+    - intros x l t' Hx Ht' En. exfalso. destruct (in_level_file st l t' Ht') as (f & Hf & <-).
+      apply (Hfresh (t_num x) f); [rewrite <- Hnums; apply in_map; exact Hx|exact Hf|exact En].
+    - intros x Hx. apply HkI. rewrite <- Eole. exact Hx.
+    - exists st'. unfold b_compact, b_pick. fold sd. rewrite Ecm. fold deeper. rewrite Htr.
+      change (fin_of s') with chunks. rewrite Eo.
+      split; [exact Ei|]. split; [exact B'|]. split; [exact Em|]. split; [exact Efz|].
+      split; [split; [exact Cuts|exact Kept]|]. split; [rewrite Eav; exact Ef|].
+      assert (Eouts : LE (mk_outputs nums chunks) = compact_entries c p minSeq deeper (c_t0 cm ++ c_t1 cm))
+        by (rewrite Eole; exact Kept).
+      split.
+      + intros x Hx. apply Hall in Hx. apply all_entries_bufs. destruct Hx as [Hx|[Hx|Hx]]; [left; exact Hx| |].
+        * right. apply (split_inputs st lvl cm Wl I0 I1). left. apply HkI. rewrite <- Eole. exact Hx.
+        * right. apply (split_inputs st lvl cm Wl I0 I1). right. exact Hx.
+      + intros k s Hs.
+        (* both collections, as sets, in the shape of ModelStep.model_compaction_admissible *)
+        set (others := bufs_of st ++ others_of st cm).
+        assert (Unew : uniq_in (all_entries (absS st'))) by exact (bf_uniq _ B').
+        assert (SEnew : same_elems (all_entries (absS st')) (compact_entries c p minSeq deeper (c_t0 cm ++ c_t1 cm) ++ others)).
+        { intros x. rewrite Hall, Eouts. unfold others. rewrite !in_app_iff. tauto. }
+        assert (SEold : same_elems (all_entries (absS st)) (LE (c_t0 cm ++ c_t1 cm) ++ others)).
+        { intros x. rewrite all_entries_bufs, (split_inputs st lvl cm Wl I0 I1 x). unfold others. rewrite !in_app_iff. tauto. }
+        rewrite (newest_same_elems c ok k s _ _ Unew SEnew), (newest_same_elems c ok k s _ _ U SEold).
+        destruct (wf_state_newer _ (wb_abs _ _ _ _ _ _ _ _ _ _ _ W)) as (N1 & N2 & N3).
+        apply (ModelStep.model_compaction_admissible c ok p pok (fsz st) (av st) Wl lvl sd S2 cm Pk (bufs_of st) minSeq Hms).
+        * apply (uniq_in_incl (all_entries (absS st))); [|exact U]. intros x Hx. apply all_entries_bufs. left. exact Hx.
+        * intros m i x Hm Hx Hu. unfold bufs_of in Hm. apply in_app_or in Hm as [Hm|Hm].
+          -- apply (N2 i m x Hm Hx). symmetry. exact Hu.
+          -- apply (N3 i m x Hm Hx). symmetry. exact Hu.
+        * exact Hs.
   Qed.
 End Steps.
